@@ -658,6 +658,7 @@ pub fn snapshot_text(env: &mut Env<VS>) -> String {
     }
     lines.push(format!("arg0={}", env.arg0));
     lines.push(format!("jobs={}", env.jobs.len()));
+    lines.push(format!("lastasync={}", env.jobs.last_async_pid().0));
     {
         use yash_env::stack::Frame;
         let frames: Vec<String> = env
